@@ -256,7 +256,9 @@ func natMulCase(c *Ctx, x, y []uint64, thr string, zkind int) {
 	case 3:
 		z = xw // aliased with x: must not be reused
 	}
-	key := func() string { return fmt.Sprintf("mul x=%s y=%s thresholds=%s z=%d", wordsKey(x), wordsKey(y), thr, zkind) }
+	key := func() string {
+		return fmt.Sprintf("mul x=%s y=%s thresholds=%s z=%d", wordsKey(x), wordsKey(y), thr, zkind)
+	}
 	var got []Word
 	pv, _ := protect(func() { got = decimal.VerifDecMul(z, xw, yw) })
 	if pv != nil {
